@@ -33,6 +33,9 @@ pub struct Trace {
     #[serde(with = "hexbytes")]
     pub bytes: Vec<u8>,
     pub flush_end: bool,
+    /// the buffer starts this many bytes (1..=3) past a 4-byte boundary (0: wherever the guard-page placement puts it)
+    #[serde(default)]
+    pub misalign: u8,
     pub reqs: Vec<Req>,
 }
 
@@ -182,10 +185,22 @@ impl Property for C11 {
             return Trace {
                 bytes,
                 flush_end: rng.chance(1, 2),
+                misalign: 0,
                 reqs: vec![Req::Typed(idx), Req::Offset, Req::Word],
             };
         }
         let mut bytes = gen_bytes(rng);
+        if rng.chance(1, 6) {
+            // a long run of plain words behind (or in front of) the mixed content
+            let extra: Vec<u8> = (0..rng.range(16, 120)).flat_map(|_| rng.word().to_le_bytes()).collect();
+            if rng.chance(1, 2) {
+                bytes.extend_from_slice(&extra);
+            } else {
+                let mut e = extra;
+                e.extend_from_slice(&bytes);
+                bytes = e;
+            }
+        }
         if rng.chance(1, 3000) {
             // scale: a string whose terminator is hundreds of kilobytes away (word counts beyond 16 bits)
             let n = *rng.pick(&[262_139usize, 262_143, 262_144, 262_148, 300_001]);
@@ -198,6 +213,7 @@ impl Property for C11 {
             return Trace {
                 bytes,
                 flush_end: true,
+                misalign: 0,
                 reqs: vec![Req::SetLimit(rng.range(65_536, 80_000)), Req::Str, Req::Offset, Req::Word, Req::LimitReached, Req::Word, Req::Word],
             };
         }
@@ -217,6 +233,8 @@ impl Property for C11 {
                     // huge counts whose byte size wraps around to a small number
                     2 => ((rng.range(1, 3)) << 62) + rng.range(1, 6),
                     3 => (1u64 << 63) + rng.range(1, 6),
+                    // runs long enough for any bulk / vectorised path
+                    4 | 5 => rng.range(7, 80),
                     _ => rng.below(7),
                 }),
                 5..=7 => Req::Str,
@@ -254,14 +272,23 @@ impl Property for C11 {
         Trace {
             bytes,
             flush_end: rng.chance(3, 4),
+            misalign: if rng.chance(1, 5) { rng.range(1, 3) as u8 } else { 0 },
             reqs,
         }
     }
 
     fn execute(t: &Trace, cov: &mut Cov) -> RunOut {
         let s = snap();
-        let gb = GuardedBuf::new(&t.bytes, t.flush_end);
-        let bytes = gb.bytes();
+        // deliberately misaligned start: padding in front, not flush with the leading guard page
+        let padded: Vec<u8>;
+        let gb = if t.misalign > 0 {
+            cov.hit("reached.misaligned_buffer_start");
+            padded = std::iter::repeat(0xEEu8).take(t.misalign as usize).chain(t.bytes.iter().copied()).collect();
+            GuardedBuf::new(&padded, false)
+        } else {
+            GuardedBuf::new(&t.bytes, t.flush_end)
+        };
+        let bytes = &gb.bytes()[(t.misalign as usize).min(gb.bytes().len())..];
         let len = bytes.len();
         let mut d = Decoder::new(bytes);
         let mut off: usize = 0;
@@ -688,6 +715,11 @@ impl Property for C11 {
     fn shrink(t: &Trace) -> Vec<Trace> {
         let mut out = vec![];
         let n = t.reqs.len();
+        if t.misalign > 0 {
+            let mut c = t.clone();
+            c.misalign = 0;
+            out.push(c);
+        }
         if n > 1 {
             let mut c = t.clone();
             c.reqs.truncate(n / 2);
